@@ -31,6 +31,7 @@ var decKnownText string
 type decNormaliser struct {
 	fset    *token.FileSet
 	helpers map[string]*ast.FuncDecl
+	all     map[string][]*ast.FuncDecl // every function / method of the package, by name
 }
 
 func newDecNormaliser(fset *token.FileSet, repo string) *decNormaliser {
@@ -38,7 +39,7 @@ func newDecNormaliser(fset *token.FileSet, repo string) *decNormaliser {
 	for _, n := range strings.Fields(decKnownText) {
 		known[n] = true
 	}
-	nz := &decNormaliser{fset: fset, helpers: map[string]*ast.FuncDecl{}}
+	nz := &decNormaliser{fset: fset, helpers: map[string]*ast.FuncDecl{}, all: map[string][]*ast.FuncDecl{}}
 	files, _ := filepath.Glob(filepath.Join(repo, "*.go"))
 	for _, f := range files {
 		if strings.HasSuffix(f, "_test.go") {
@@ -49,8 +50,11 @@ func newDecNormaliser(fset *token.FileSet, repo string) *decNormaliser {
 			continue
 		}
 		for _, d := range af.Decls {
-			if fd, ok := d.(*ast.FuncDecl); ok && fd.Body != nil && !known[fd.Name.Name] {
-				nz.helpers[fd.Name.Name] = fd
+			if fd, ok := d.(*ast.FuncDecl); ok && fd.Body != nil {
+				nz.all[fd.Name.Name] = append(nz.all[fd.Name.Name], fd)
+				if !known[fd.Name.Name] {
+					nz.helpers[fd.Name.Name] = fd
+				}
 			}
 		}
 	}
